@@ -235,6 +235,10 @@ class RandomQueries:
                          {'k': 'agg', 'f': 'sum', 'a': c(r.choice('vwk'))}, {'k': 'agg', 'f': r.choice(['min', 'max', 'first', 'last']), 'a': c(r.choice('ksvw'))},
                          {'k': 'agg', 'f': 'sum', 'a': {'k': 'bin', 'op': 'add', 'a': c('v'), 'b': c('k')}}])
         k = r.random()
+        if k > 0.85:          # operands that differ only below a unary operator / a test
+            f = r.choice(['sum', 'min', 'max', 'first', 'last', 'count'])
+            return {'k': 'agg', 'f': f, 'a': {'k': 'un', 'op': 'neg', 'a': c(r.choice('vk'))}} if r.random() < 0.6 else \
+                {'k': 'agg', 'f': r.choice(['first', 'last', 'count', 'max']), 'a': {'k': 'un', 'op': r.choice(['isnull', 'isnotnull']), 'a': c(r.choice('ksvw'))}}
         if k < 0.15:
             return {'k': 'bin', 'op': r.choice(['add', 'sub', 'mul']), 'a': {'k': 'agg', 'f': 'sum', 'a': c('v')}, 'b': {'k': 'agg', 'f': 'count', 'a': {'k': 'star'}}}
         if k < 0.22:
@@ -295,6 +299,11 @@ class RandomQueries:
                              {'k': 'bin', 'op': 'mod', 'a': self.col('v'), 'b': self.const_int(2)}], r.randint(0, 2))
             naggs = r.randint(1, 3)
             style = r.choice(['expr', 'idx', 'name', 'implicit', 'hidden'])
+            if len(keys) == 2 and r.random() < 0.12:          # grouping without any aggregate function, one key not selected
+                q['targets'] = [{'e': keys[0], 'as': 'g0'}]
+                q['group'] = [{'k': 'expr', 'e': keys[0]}, {'k': 'expr', 'e': keys[1]}]
+                r.shuffle(q['group'])
+                return q
             aggs = [{'e': self.agg(), 'as': 'a%d' % i} for i in range(naggs)]
             if style == 'hidden' and keys:
                 q['targets'] = aggs
